@@ -1089,6 +1089,16 @@ def req_C13(r, tier):
             out.append(("eds.batch:duplicated:n=%d" % n, batch_line(tr + [tr[0], tr[0]])))
             out.append(("eds.batch:repeat:n=%d" % n, batch_line(tr)))
         if n >= 1:
+            # a VALID entry with an exceptional R: zero nonce, R = the neutral element (canonical encoding of a prime-order-subgroup
+            # element), S = H(R, A, M) * a: accepted by single verification, so the batch must accept it as well, at every position
+            for pos in sorted({0, n - 1, r.below(n)}):
+                tr2 = [list(t) for t in tr]
+                sd, m, sig, pk = tr2[pos]
+                a_, _pref = ed_expand(sd)
+                idb = compress(ZERO)
+                k_ = ed_challenge(idb, pk, m, None)
+                tr2[pos][2] = idb + tole(k_ * a_ % L)
+                out.append(("eds.batch:valid_R_identity_at_%s:n=%d" % ("first" if pos == 0 else ("last" if pos == n - 1 else "mid"), n), batch_line(tr2)))
             for what in ("msg", "R", "S", "key", "S+l", "Snoncanon", "Rundecodable", "swapkeys"):
                 tr2 = [list(t) for t in tr]
                 j = r.below(n)
